@@ -733,7 +733,15 @@ class Interp:
 
     def exec_try(self, st, fr):
         if st.finalbody:
-            raise AnalysisError(f"{self.where(st)}: try/finally outside the fragment")
+            try:
+                self._exec_try_core(st, fr)
+            finally:
+                # the finally block runs on every exit (a control-flow signal raised inside it replaces the pending one, as in CPython)
+                self.exec_block(st.finalbody, fr)
+            return
+        self._exec_try_core(st, fr)
+
+    def _exec_try_core(self, st, fr):
         try:
             self.exec_block(st.body, fr)
         except Raised as r:
@@ -956,6 +964,25 @@ class Interp:
 
     def e_Lambda(self, e, fr):
         return Closure(e, fr)
+
+    def e_NamedExpr(self, e, fr):
+        v = self.eval(e.value, fr)
+        self.assign(e.target, v, fr)
+        return v
+
+    def e_SetComp(self, e, fr):
+        r = self.comprehension(e, fr)
+        if isinstance(r, list):
+            if any(is_sym(x) for x in r):
+                raise AnalysisError(f"{self.where(e)}: set of symbolic values")
+            return set(r)
+        raise AnalysisError(f"{self.where(e)}: set comprehension over a symbolic sequence")
+
+    def e_Set(self, e, fr):
+        vals = [self.eval(x, fr) for x in e.elts]
+        if any(is_sym(x) for x in vals):
+            raise AnalysisError(f"{self.where(e)}: set of symbolic values")
+        return set(vals)
 
     def concretize(self, v):
         """a boolean term whose atom is already decided on this path becomes a
@@ -1400,7 +1427,11 @@ class Interp:
         args = []
         for a in e.args:
             if isinstance(a, ast.Starred):
-                raise AnalysisError(f"{self.where(e)}: star-argument outside the fragment")
+                sv = self.eval(a.value, fr)
+                if isinstance(sv, (tuple, list)):
+                    args.extend(sv)
+                    continue
+                raise AnalysisError(f"{self.where(e)}: star-argument of a symbolic sequence outside the fragment")
             args.append(self.eval(a, fr))
         kwargs = {}
         for k in e.keywords:
